@@ -110,6 +110,8 @@ type opObs struct {
 }
 
 func runReasmImpl(c RCase) (obs []opObs, panicMsg string) {
+	guardEnter(c)
+	defer guardLeave()
 	defer func() {
 		if r := recover(); r != nil {
 			panicMsg = fmt.Sprint(r)
